@@ -118,27 +118,19 @@ Proof.
     cbn [st_fail st_store st_facts set_store set_facts]. rewrite Hm. split; auto.
 Qed.
 
-Lemma add_hook_err_hooks s fact :
-  add_hook_err s fact = add_hook_err (empty_state Linear (st_hooks s)) fact.
-Proof. reflexivity. Qed.
-
 Lemma M_will_fail s : M s -> will_fail s = false.
 Proof. intros (Hf & _). unfold will_fail. rewrite Hf. reflexivity. Qed.
 
 Lemma st_add_M s g x now fr aux :
-  (st_kind s = Linear -> op_hook_ok (st_hooks s) (SAdd g x fr aux, now) = true) ->
   M s -> M (fst (st_add s g x now fr aux)).
 Proof.
-  intros Hh HM. pose proof (M_will_fail s HM) as Hw. destruct HM as (Hf & Hm).
+  intros HM. pose proof (M_will_fail s HM) as Hw. destruct HM as (Hf & Hm).
   destruct (prepare_fact g x now fr aux) as [[id fact]|e|w|] eqn:Hp.
   2-4: unfold st_add; rewrite Hp; split; assumption.
   destruct (st_add_shape s g x now fr aux id fact Hp) as (c & (_ & _ & F3 & _ & F5 & F6 & _) & Hc).
   unfold M. rewrite F3, F5, F6, Hm. split; [exact Hf|].
   destruct c; cbn [ac_mem ac_sto]; try reflexivity; cbn [ac_cond] in Hc.
-  - destruct Hc as (_ & Hc & _). congruence.
-  - destruct Hc as (Hk & _ & e & He & _). exfalso.
-    specialize (Hh Hk). cbn [op_hook_ok] in Hh. rewrite Hp in Hh.
-    unfold hook_rejects in Hh. rewrite <- add_hook_err_hooks, He in Hh. discriminate.
+  destruct Hc as (_ & Hc & _). congruence.
 Qed.
 
 Lemma st_clear_M s : M s -> M (fst (st_clear s)).
@@ -148,11 +140,10 @@ Proof.
   destruct H as (_ & H1 & H2 & _). unfold M. rewrite F3, H1, H2. auto.
 Qed.
 
-Lemma sstep_M s o :
-  (st_kind s = Linear -> op_hook_ok (st_hooks s) o = true) -> M s -> M (sstep s o).
+Lemma sstep_M s o : M s -> M (sstep s o).
 Proof.
-  destruct o as [op now]. unfold sstep. destruct op; intros Hh.
-  - apply st_add_M. exact Hh.
+  destruct o as [op now]. unfold sstep. destruct op.
+  - apply st_add_M.
   - apply (st_Rem_inv M M_pending M_head).
   - apply (st_get_inv M M_pending M_head).
   - apply (st_search_inv M M_pending M_head).
@@ -160,27 +151,11 @@ Proof.
   - apply st_clear_M.
 Qed.
 
-Lemma fold_sstep_M ops : forall s,
-  (st_kind s = Linear -> forallb (op_hook_ok (st_hooks s)) ops = true) ->
-  M s -> M (fold_left sstep ops s).
+Lemma fold_sstep_M ops : forall s, M s -> M (fold_left sstep ops s).
 Proof.
-  induction ops as [|o r IH]; intros s Hh HM; cbn [fold_left]; [exact HM|].
-  destruct (sstep_Pres s o) as (P1 & P2 & _).
-  apply IH.
-  - rewrite P1, P2. intros Hk. specialize (Hh Hk). cbn [forallb] in Hh.
-    apply andb_true_iff in Hh. apply Hh.
-  - apply sstep_M; [|exact HM]. intros Hk. specialize (Hh Hk). cbn [forallb] in Hh.
-    apply andb_true_iff in Hh. apply Hh.
+  induction ops as [|o r IH]; intros s HM; cbn [fold_left]; [exact HM|].
+  apply IH. apply sstep_M. exact HM.
 Qed.
-
-Lemma op_hook_ok_nohooks o : op_hook_ok false o = true.
-Proof.
-  destruct o as [[g x fr aux|id|id|p|ev|] now]; try reflexivity.
-  cbn [op_hook_ok]. destruct (prepare_fact g x now fr aux) as [[id fact]| | |]; reflexivity.
-Qed.
-
-Lemma forallb_op_hook_ok_nohooks ops : forallb (op_hook_ok false) ops = true.
-Proof. apply forallb_forall. intros o _. apply op_hook_ok_nohooks. Qed.
 
 (** * Where facts come from (B3) *)
 
